@@ -213,6 +213,7 @@ def snapshot(m, d, fields=None):
   obs["_njmax"] = int(d.njmax)
   obs["_naconmax"] = int(d.naconmax)
   obs["_nacon_raw"] = int(d.nacon.numpy()[0])
+  obs["_dt"] = float(np.asarray(m.opt.timestep.numpy()).ravel()[0])
   return obs
 
 
@@ -255,6 +256,8 @@ def world_view(obs, w, contacts=True, efc=True):
     v["actuator_moment"] = dense
     for k in ("moment_rowadr", "moment_rownnz", "moment_colind"):
       v["_layout." + k] = v.pop(k)
+  if "_dt" in obs:
+    v["_dt"] = np.array([obs["_dt"]], dtype=np.float64)
   if contacts:
     c = obs["contact"]
     sel = c["worldid"] == w
@@ -515,8 +518,9 @@ def tol_diff(va, vb, state_level, rtol_state=1e-4, rtol_force=5e-3, atol=1e-5, s
   """Fields of va that differ from vb beyond tolerance. Returns list of (field, info)."""
   bad = []
   worst = 0.0
+  dt = float(vb["_dt"][0]) if "_dt" in vb else 0.0
   for k in va:
-    if k in skip or k not in vb:
+    if k in skip or k not in vb or k == "_dt":
       continue
     x, y = va[k], vb[k]
     if x.shape != y.shape:
@@ -543,6 +547,15 @@ def tol_diff(va, vb, state_level, rtol_state=1e-4, rtol_force=5e-3, atol=1e-5, s
         o = vb[other].astype(np.float64)
         scale = max(scale, float(np.max(np.abs(np.where(np.isfinite(o), o, 0.0)))))
     tol = atol + rt * max(1e-3, scale)
+    if k == "qvel" and dt and "qacc" in vb and vb["qacc"].size and "qacc" not in skip:
+      # the next velocity is qvel + dt * qacc: whatever is accepted on the acceleration (force-level tolerance, scaled with the
+      # accelerations of this world) is accepted, times dt, on the velocity
+      sq = 0.0
+      for other in ("qacc", "qacc_smooth"):
+        if other in vb and vb[other].size:
+          o = vb[other].astype(np.float64)
+          sq = max(sq, float(np.max(np.abs(np.where(np.isfinite(o), o, 0.0)))))
+      tol = max(tol, dt * (atol + rtol_force * max(1e-3, sq)))
     err = float(np.max(np.abs(xf - yf)))
     worst = max(worst, err / tol)
     if err > tol:
